@@ -117,3 +117,40 @@ pub fn free_port(v6: bool) -> u16 {
         Err(_) => 20000 + (std::process::id() % 20000) as u16,
     }
 }
+
+/// Wait until a socket is in the LISTEN state at `address` (unix path, unix:@abstract or tcp:host:port) WITHOUT connecting to
+/// it: a probe connection would count as a connection for the server under test.  The kernel's socket tables say so
+/// (bind() makes a path visible before listen() makes it connectable).
+pub fn wait_listening(address: &str, max: Duration) -> bool {
+    let t0 = Instant::now();
+    loop {
+        let up = if let Some(rest) = address.strip_prefix("unix:") {
+            let name = rest.split(';').next().unwrap_or(rest);
+            std::fs::read_to_string("/proc/net/unix").map(|t| {
+                t.lines().skip(1).any(|l| {
+                    let f: Vec<&str> = l.split_whitespace().collect();
+                    // Num RefCount Protocol Flags Type St Inode Path ; __SO_ACCEPTCON = 0x10000
+                    f.len() >= 8 && f[7] == name && u32::from_str_radix(f[3], 16).map(|x| x & 0x10000 != 0).unwrap_or(false)
+                })
+            }).unwrap_or(false)
+        } else if let Some(rest) = address.strip_prefix("tcp:") {
+            let port = rest.rsplit(':').next().and_then(|p| p.parse::<u16>().ok()).unwrap_or(0);
+            let listening = |file: &str| std::fs::read_to_string(file).map(|t| {
+                t.lines().skip(1).any(|l| {
+                    let f: Vec<&str> = l.split_whitespace().collect();
+                    f.len() >= 4 && f[3] == "0A" && f[1].rsplit(':').next().and_then(|p| u16::from_str_radix(p, 16).ok()) == Some(port)
+                })
+            }).unwrap_or(false);
+            listening("/proc/net/tcp") || listening("/proc/net/tcp6")
+        } else {
+            false
+        };
+        if up {
+            return true;
+        }
+        if t0.elapsed() > max {
+            return false;
+        }
+        std::thread::sleep(Duration::from_millis(1));
+    }
+}
